@@ -23,6 +23,7 @@ CONSTANTS N,        \* number of replicas, named 1..N (the order of server uuids
           MaxTs,    \* timestamps 1..MaxTs for local writes
           MaxRepl,  \* bound on exchanges
           MaxWrites,\* bound on local writes
+          MergeRestamp, \* BOOLEAN: merged valueset content is re-stamped with the consumer's change id (fixed tree)
           NoSkew,   \* BOOLEAN: clocks are causally consistent (a write is stamped later than every change the
                     \* replica has already received); FALSE also explores replicas whose clock lags behind
           EnableRename \* BOOLEAN: include renames into a shared name pool (needs the attrunique conflict model)
@@ -133,18 +134,30 @@ Purge(r, u, ts) ==    \* recycled -> tombstone (purge_recycled; the retention ti
 
 \* ---------------------------------------------------------------- L2: one incremental exchange
 \* merge_state for two LIVE states with equal `at` (left = incoming, right = db)
-MergeLive(inc, db) ==
+MergeLive(inc, db, tc) ==
   LET sent == inc.sent     \* attribute names carried by the message
       pick(a) == IF a \in sent /\ CidLt(db.ch[a], inc.ch[a]) THEN "left" ELSE "right"
-      newch == [a \in Attrs |-> IF pick(a) = "left" THEN inc.ch[a] ELSE db.ch[a]]
+      \* mergeable valueset: when both sides have the attribute the NEWER side is `self` and absorbs
+      \* the older one's content (entry.rs merge_state)
+      newerSes == IF pick("ses") = "left" THEN inc.ses ELSE db.ses
+      mergedSes == IF "ses" \notin sent THEN db.ses
+                   ELSE IF pick("ses") = "left" THEN MergeSes(inc.ses, db.ses) ELSE MergeSes(db.ses, inc.ses)
+      \* MergeRestamp = FALSE: the change id stays the newer side's although the content changed (base tree);
+      \* MergeRestamp = TRUE: content that differs from the newer side is stamped with the consumer's
+      \* transaction change id tc, so it is supplied onward (the `fix:` of C08/C11)
+      restamp == MergeRestamp /\ "ses" \in sent /\ mergedSes # newerSes
+      newch == [a \in Attrs |-> IF a = "ses" /\ restamp THEN tc
+                                ELSE IF pick(a) = "left" THEN inc.ch[a] ELSE db.ch[a]]
   IN [k |-> "live", at |-> db.at, ch |-> newch,
       dn  |-> IF pick("dn")  = "left" THEN inc.dn  ELSE db.dn,
       cls |-> IF pick("cls") = "left" THEN inc.cls ELSE db.cls,
       nm  |-> IF pick("nm")  = "left" THEN inc.nm  ELSE db.nm,
-      \* mergeable valueset: when both sides have the attribute the NEWER side is `self` and absorbs
-      \* the older one's content; the change id stays the newer side's (entry.rs merge_state)
-      ses |-> IF "ses" \notin sent THEN db.ses
-              ELSE IF pick("ses") = "left" THEN MergeSes(inc.ses, db.ses) ELSE MergeSes(db.ses, inc.ses)]
+      ses |-> mergedSes]
+Restamped(inc, db) ==
+  /\ MergeRestamp /\ inc.k = "live" /\ db.k = "live" /\ inc.at = db.at /\ "ses" \in inc.sent
+  /\ LET newer == IF CidLt(db.ch["ses"], inc.ch["ses"]) THEN inc.ses ELSE db.ses
+         merged == IF CidLt(db.ch["ses"], inc.ch["ses"]) THEN MergeSes(inc.ses, db.ses) ELSE MergeSes(db.ses, inc.ses)
+     IN merged # newer
 
 \* entry as created from a message when the consumer has nothing (stub + merge): only what was sent
 FromMsg(inc) ==
@@ -154,7 +167,7 @@ FromMsg(inc) ==
 
 \* result of applying one incoming entry state to the consumer's entry; also says whether the
 \* consumer (as origin of the losing side) creates a conflict entry
-ApplyOne(c, inc, db) ==
+ApplyOne(c, inc, db, tc) ==
   IF inc.k = "tomb" THEN
        IF db.k = "tomb" THEN [e |-> IF CidLt(inc.at, db.at) THEN Tomb(inc.at) ELSE db, cf |-> {}]
        ELSE [e |-> Tomb(inc.at), cf |-> {}]
@@ -165,7 +178,7 @@ ApplyOne(c, inc, db) ==
        IF CidLt(db.at, inc.at) THEN [e |-> db, cf |-> {}]
        ELSE [e |-> FromMsg(inc),
              cf |-> IF db.at[2] = c THEN {[src_at |-> db.at, nm |-> db.nm, dn |-> db.dn]} ELSE {}]
-  ELSE [e |-> MergeLive(inc, db), cf |-> {}]
+  ELSE [e |-> MergeLive(inc, db, tc), cf |-> {}]
 
 \* name of the arm ApplyOne takes (for transition coverage of replayed behaviours)
 Arm(inc, db) ==
@@ -187,7 +200,8 @@ Repl(s, c, ts) ==
                    IF e.k = "tomb" THEN [k |-> "tomb", at |-> e.at]
                    ELSE [k |-> "live", at |-> e.at, sent |-> {a \in Attrs : InWin(e.ch[a])},
                          ch |-> e.ch, dn |-> e.dn, cls |-> e.cls, nm |-> e.nm, ses |-> e.ses]
-         res(u) == ApplyOne(c, Msg(u), ent[c][u])
+         res(u) == ApplyOne(c, Msg(u), ent[c][u], <<ts, c>>)
+         restamps == \E u \in touched : Restamped(Msg(u), ent[c][u])
          newcf == UNION {res(u).cf : u \in touched}
          \* conflict entries are ordinary entries created under the consumer's own change id
          sentcf == {x \in cnf[s] : InWin(x.ccid)}
@@ -202,7 +216,7 @@ Repl(s, c, ts) ==
                  clash == IF ~EnableRename THEN {}
                           ELSE {u \in AllIds : IsNormal(merged[u]) /\
                                   \E v \in AllIds \ {u} : IsNormal(merged[v]) /\ merged[v].nm = merged[u].nm}
-                 stamp == newcf # {} \/ clash # {}
+                 stamp == newcf # {} \/ clash # {} \/ restamps
              IN
              /\ IF stamp THEN Stamp(c, ts) /\ (NoSkew => \A x \in {y \in ruv[s] : InWin(y)} : ts > x[1]) ELSE ts = OwnMax(c)
              /\ ent' = [ent EXCEPT ![c] = [u \in AllIds |->
